@@ -73,6 +73,9 @@ func decodeType(b []byte) (vocab.Type, error) {
 	if err != nil {
 		return nil, err
 	}
+	if m == nil {
+		return nil, fmt.Errorf("sim: document is JSON null")
+	}
 	if _, ok := m["@context"]; !ok {
 		m["@context"] = asCtx
 	}
@@ -325,6 +328,9 @@ func (d *SimDB) Get(c context.Context, id *url.URL) (vocab.Type, error) {
 		return nil, errMissing
 	}
 	b = d.s.corruptStored(d, "db.Get", ustr(id), b)
+	if cur := d.s.cur; cur != nil && cur.EntryKind == "handler" {
+		cur.Result = string(b) // the value the application supplied to this very request
+	}
 	t, err := decodeType(b)
 	if err != nil {
 		d.s.logEv(Event{Srv: d.host(), Kind: "db.Get", ID: ustr(id), Res: "undecodable"})
